@@ -11,6 +11,7 @@
 #include <yaclib/coro/yield.hpp>
 #include <yaclib/runtime/fair_thread_pool.hpp>
 
+#include <mutex>
 #include <vector>
 #include <yaclib_std/thread>
 
@@ -27,6 +28,7 @@ struct Round {
   int lock = 0;
   int unlock = 0;
   bool yield_in_cs = false;
+  int guard_origin = 0;  // guards: 0 m.Guard()/m.TryGuard(), 1 deferred guard then g.Lock()/g.TryLock(), 2 adopt_lock after m.Lock() / try_to_lock
   int gap = 0;
   // recorded
   std::uint64_t invoke = 0, granted = 0, released = 0;
@@ -68,6 +70,7 @@ class Case final : public sim::CaseBase {
         }
         rd.yield_in_cs = g.Flip();
         rd.gap = static_cast<int>(g.Draw(3));
+        rd.guard_origin = (rd.lock == kGuard || rd.lock == kTryGuard) ? static_cast<int>(g.Draw(3)) : 0;
         rs.push_back(rd);
       }
       rounds.push_back(rs);
@@ -81,7 +84,13 @@ class Case final : public sim::CaseBase {
     for (auto& rs : rounds) {
       j.Arr();
       for (auto& r : rs) {
-        j.Obj().KV("lock", kLockNames[r.lock]).KV("unlock", kUnlockNames[r.unlock]).KV("yield_inside", r.yield_in_cs).End();
+        static const char* origins[] = {"mutex.Guard()/TryGuard()", "UniqueGuard{m, defer_lock} then guard.Lock()/TryLock()",
+                                        "UniqueGuard{m, adopt_lock} after m.Lock() / UniqueGuard{m, try_to_lock}"};
+        j.Obj().KV("lock", kLockNames[r.lock]).KV("unlock", kUnlockNames[r.unlock]).KV("yield_inside", r.yield_in_cs);
+        if (r.lock == kGuard || r.lock == kTryGuard) {
+          j.KV("guard_made_by", origins[r.guard_origin]);
+        }
+        j.End();
       }
       j.EndArr();
     }
@@ -279,7 +288,27 @@ yaclib::Future<> Worker(Case* c, M* m, int w, yaclib::IExecutor* e, yaclib::IExe
       } break;
       case kGuard:
       case kTryGuard: {
-        auto g = r.lock == kGuard ? co_await m->Guard() : m->TryGuard();
+        yaclib::UniqueGuard<M> g;
+        if (r.guard_origin == 1) {
+          g = yaclib::UniqueGuard<M>{*m, std::defer_lock};
+          if (g.OwnsLock()) {
+            sim::Fail("GUARD_NOT_OWNING", "a deferred guard claims to own the lock");
+          }
+          if (r.lock == kGuard) {
+            co_await g.Lock();
+          } else {
+            (void)g.TryLock();
+          }
+        } else if (r.guard_origin == 2) {
+          if (r.lock == kGuard) {
+            co_await m->Lock();
+            g = yaclib::UniqueGuard<M>{*m, std::adopt_lock};
+          } else {
+            g = yaclib::UniqueGuard<M>{*m, std::try_to_lock};
+          }
+        } else {
+          g = r.lock == kGuard ? co_await m->Guard() : m->TryGuard();
+        }
         if (!g) {
           r.try_failed = true;
           if (r.lock == kGuard) {
